@@ -124,10 +124,28 @@ rest = m.group(1)
 FIELD = {"tempICCSize": "temp", "iccSize": "inst"}
 m2 = re.fullmatch(r"if\((.*)\)retval\+=this->(\w+);elseretval\+=this->(\w+);", rest)
 m3 = re.fullmatch(r"retval\+=this->(\w+);", rest)
+# with the per-chunk marker overhead: source markers counted at header time, instance profile in 65519-byte chunks
+m4 = re.fullmatch(r"if\((.*)\)retval\+=this->tempICCSize\+(\d+)\*\(size_t\)this->tempICCMarkers;"
+                  r"elseif\(this->iccSize!=0\)retval\+=this->iccSize\+(\d+)\*\(this->iccSize/(\d+)\+\(this->iccSize%(\d+)!=0\)\);", rest)
+chunk_overhead, inst_chunk = 0, 65519
+picks_temp = "false"
 if m2 and m2.group(2) in FIELD and m2.group(3) in FIELD:
     size_term = "if %s then %s else %s" % (cond(m2.group(1), "tj3TransformBufSize"), FIELD[m2.group(2)], FIELD[m2.group(3)])
+    if (m2.group(2), m2.group(3)) == ("tempICCSize", "iccSize"):
+        picks_temp = cond(m2.group(1), "tj3TransformBufSize")
 elif m3 and m3.group(1) in FIELD:
     size_term = FIELD[m3.group(1)]
+    picks_temp = "true" if m3.group(1) == "tempICCSize" else "false"
+elif m4 and m4.group(2) == m4.group(3) and m4.group(4) == m4.group(5):
+    size_term = "if %s then temp else inst" % cond(m4.group(1), "tj3TransformBufSize")
+    picks_temp = cond(m4.group(1), "tj3TransformBufSize")
+    chunk_overhead, inst_chunk = int(m4.group(2)), int(m4.group(4))
+    hh = func(tc, "tj3DecompressHeader", "turbojpeg.c")
+    if "this->tempICCMarkers=0;" not in hh.split("jpeg_read_header")[0] or \
+       "if(marker->marker==JPEG_APP0+2&&marker->data_length>=14&&!memcmp(marker->data,\"ICC_PROFILE\\0\",12))this->tempICCMarkers++;" not in hh:
+        sys.exit("turbojpeg.c tj3DecompressHeader: counting of the source ICC markers not recognised")
+    if "tempICCMarkers=0" in func(tc, "tj3GetICCProfile", "turbojpeg.c"):
+        sys.exit("turbojpeg.c tj3GetICCProfile: resets tempICCMarkers")
 else:
     sys.exit("turbojpeg.c tj3TransformBufSize: ICC term `%s` not recognised" % rest[:200])
 
@@ -174,7 +192,8 @@ copies_app2 = "(negb (opt =? jcopyopt_NONE) && negb (opt =? jcopyopt_COMMENTS) &
 h = func(tc, "tj3DecompressHeader", "turbojpeg.c")
 resets = "free(this->tempICCBuf);this->tempICCBuf=NULL;this->tempICCSize=0;" in h.split("jpeg_read_header")[0]
 m = re.search(r"if\(((?:(?!if\().)*?)\)\{if\(jpeg_read_icc_profile\(dinfo,&iccPtr,&iccLen\)\)\{free\(this->tempICCBuf\);this->tempICCBuf=iccPtr;"
-              r"this->tempICCSize=\(size_t\)iccLen;\}\}", h)
+              r"this->tempICCSize=\(size_t\)iccLen;(?:for\(marker=dinfo->marker_list;marker!=NULL;marker=marker->next\)\{if\(marker->marker==JPEG_APP0\+2&&"
+              r"marker->data_length>=14&&!memcmp\(marker->data,\"ICC_PROFILE\\0\",12\)\)this->tempICCMarkers\+\+;\})?\}\}", h)
 if not m:
     sys.exit("turbojpeg.c tj3DecompressHeader: ICC extraction rule not recognised")
 extracts = cond(m.group(1), "tj3DecompressHeader")
@@ -198,6 +217,10 @@ print("Definition gen_savemarkers_min : Z := %d.\nDefinition gen_savemarkers_max
 print("\n(* tj3TransformBufSize: the ICC term added to tj3JPEGBufSize (save = TJPARAM_SAVEMARKERS,")
 print("   temp = tempICCSize, inst = iccSize) *)")
 print("Definition gen_size_term (save : Z) (copynone : bool) (temp inst : Z) : Z :=\n  %s." % size_term)
+print("(* bytes the size function adds per ICC chunk of the profile it accounts (0 = payload only), and the chunk size")
+print("   it assumes for the instance profile *)")
+print("Definition gen_chunk_overhead : Z := %d.\nDefinition gen_inst_chunk : Z := %d." % (chunk_overhead, inst_chunk))
+print("Definition gen_size_picks_temp (save : Z) (copynone : bool) (temp inst : Z) : bool :=\n  %s." % picks_temp)
 print("\n(* tj3Transform: copyOption, iccCopied, and whether the instance profile is written *)")
 print("Definition gen_copy_option (save : Z) (copynone : bool) : Z := if copynone then jcopyopt_NONE else save.")
 print("Definition gen_icc_copied (opt : Z) (has_saved_icc : bool) : bool :=\n  %s." % copied)
